@@ -50,7 +50,10 @@ let is_ident (s : string) : bool = is_name_shape s && not (List.mem s reserved)
    names of filters, tests and attributes stand where only a name can stand: any name shape *)
 let ident what (b : M.byte list) : string =
   let s = sb b in
-  let ok = match what with "filter" | "test" | "attribute" | "method" -> is_name_shape s | _ -> is_ident s in
+  let ok = match what with
+    | "filter" | "test" | "attribute" | "method" -> is_name_shape s
+    | "function" when s = "include" || s = "block" -> true       (* the function forms of two tags: called in a print tag *)
+    | _ -> is_ident s in
   if ok then s else raise (Unprintable (what ^ " is not an identifier: " ^ String.escaped s))
 
 (* ---------------------------------------------------------------- expressions *)
